@@ -51,5 +51,22 @@ let optenc toks =
   | _ -> failwith "optenc args"
 
 
+(* optrt <delta> <len> : coap_opt_encode into an exact-size buffer, then coap_opt_parse *)
+let optrt toks =
+  match toks with
+  | [d; l] ->
+      let li = int_of_string l in
+      let v = List.init li (fun i -> zbyte.(fill_byte 1 i)) in
+      let dz = zi d in
+      let enc = opt_enc dz v in
+      let hdr = opt_hdr dz (z_of_int li) in
+      (match opt_parse enc with
+       | None -> Printf.sprintf "%s %d 0" (hex_of_bytes hdr) (List.length enc)
+       | Some ((d', v'), rest) ->
+           Printf.sprintf "%s %d %d %d %s" (hex_of_bytes hdr) (List.length enc)
+             (List.length enc - List.length rest) (int_of_z d') (hex_of_bytes v'))
+  | _ -> failwith "optrt args"
+
 let () =
+  register "optrt" optrt;
   register "c01" c01; register "c03" c03; register "optparse" optparse; register "optenc" optenc
